@@ -5,7 +5,7 @@
     [update_client] = 02-client keeper.UpdateClient, [step]/[run] = MsgUpdateClient transactions
     (writes kept iff no error).  Block hash and seal recovery are fields of the model header. *)
 From Tibc Require Import Base.Bytes Clients.Bsc Clients.BscFacts Clients.BscHistory Clients.BscWitness.
-From Coq Require Import Permutation.
+From Coq Require Import PeanoNat Permutation.
 Open Scope N_scope.
 
 (** Acceptance, exactly as the code decides it (every state, every header): the consensus state of the
